@@ -1,6 +1,7 @@
 """C11 — Go and JavaScript values convert as documented and round-trip.
-Proof: GV.Props.C11 (UTF-8<->UTF-16 round trips, type-directed round trip on the documented domain, documented table,
-wrapper cache stability, callback guard: full statement refuted + partial).
+Proof: GV.Props.C11 (UTF-8<->UTF-16 round trips, type-directed round trip on the whole documented domain by induction on the
+value, documented table, wrapper cache stability, callback guard at full strength for $send/$recv/$select + scheduler invariant).
+The models mirror /repo with fixes/C11-*.patch applied.
 Ties: (a) the REAL $externalize/$internalize/$externalizeFunction/$makeFunc and $send/$recv/$block of the prelude under
 Node vs the Lean driver (model) and the Lean spec; (b) self-checking compiled programs using every js.Object accessor,
 expected values computed by the model; (c) the callback-guard witness on the real prelude and in a compiled program."""
@@ -10,17 +11,10 @@ from . import common as C
 
 THEOREMS = [
     "utf16_roundtrip", "utf16_roundtrip_converse", "externalize_invalid_byte", "internalize_lone_low", "internalize_lone_high_end",
-    "internalize_high_then_any", "roundtrip_scalar", "roundtrip", "roundtrip_counterexample_negzero", "roundtrip_counterexample_nilmap",
-    "roundtrip_negzero", "roundtrip_nilmap", "roundtrip64_exact", "roundtrip64_beyond", "mk64_exact",
-    "documented_table_ext", "documented_table_back", "wrapper_stable", "wrapper_injective",
-    "callback_guard_counterexample", "callback_guard_witness", "callback_guard_partial", "callback_guard_partial_recv",
-    "callback_guard_damage", "wrapper_call_spec",
+    "internalize_high_then_any", "roundtrip_scalar", "roundtrip", "roundtrip_negzero", "roundtrip_nilmap", "roundtrip64_exact",
+    "roundtrip64_beyond", "mk64_exact", "documented_table_ext", "documented_table_back", "wrapper_stable", "wrapper_injective",
+    "wrapper_call_spec", "callback_guard", "callback_guard_raised", "scheduler_never_calls_noGoroutine", "callback_guard_witness", "callback_guard_old_counterexample",
 ]
-
-SIG_NEGZERO = "C11 roundtrip float value=-0 via=$internalize parseFloat sign-of-zero-lost"
-SIG_NILMAP = "C11 roundtrip map value=nil via=$internalize null becomes-empty-non-nil-map"
-SIG_GUARD_SEND = "C11 callback-guard op=send in-callback error-raised queue-entry-survives"
-SIG_GUARD_RECV = "C11 callback-guard op=recv in-callback error-raised queue-entry-survives"
 
 INT_KINDS = {"Ti": (-2 ** 31, 2 ** 31 - 1), "Ti8": (-128, 127), "Ti16": (-2 ** 15, 2 ** 15 - 1), "Ti32": (-2 ** 31, 2 ** 31 - 1),
              "Tu": (0, 2 ** 32 - 1), "Tu8": (0, 255), "Tu16": (0, 65535), "Tu32": (0, 2 ** 32 - 1), "Tup": (0, 2 ** 32 - 1)}
@@ -578,7 +572,10 @@ def gen_guard_ops(g, tier):
     rng = g.rng
     scripts = [(0, "send_cb_7|recv_1|dequeue"), (0, "recv_cb|send_1_9|dequeue"), (1, "send_1_3|send_cb_4|recv_2|recv_2|dequeue"),
                (0, "send_cb_7"), (0, "recv_cb"), (2, "send_cb_1|send_cb_2|send_cb_3|recv_1|recv_1|recv_1|dequeue|dequeue"),
-               (0, "recv_1|send_cb_5|dequeue"), (0, "send_1_5|recv_cb|dequeue")]
+               (0, "recv_1|send_cb_5|dequeue"), (0, "send_1_5|recv_cb|dequeue"),
+               (0, "sel_cb_0_s5.r|recv_1|send_2_4|dequeue"), (1, "sel_1_3_s5.r.d|sel_2_0_r.s6|sel_3_7_r.s6|sel_cb_0_r|sel_cb_2_d.r|dequeue"),
+               (0, "sel_1_0_s5.r|sel_2_0_r|send_3_8|recv_3|dequeue|dequeue"), (0, "sel_1_0_s5.r|send_cb_8|recv_cb"),
+               (0, "sel_cb_5_r.s1.r|sel_cb_0_d|sel_cb_0_s2"), (2, "sel_cb_11_s1.s2.r|sel_cb_4_s3.r|sel_cb_9_r.r|sel_cb_0_r|dequeue")]
     n = 1500 if tier == "thorough" else 300
     for _ in range(n):
         cap = rng.choice([0, 0, 1, 2])
@@ -586,10 +583,15 @@ def gen_guard_ops(g, tier):
         for _ in range(rng.randrange(1, 8)):
             k = rng.random()
             who = rng.choice(["cb", "cb", "1", "2", "3"])
-            if k < 0.4:
+            if k < 0.3:
                 evs.append("send_%s_%d" % (who, rng.randrange(1, 10)))
-            elif k < 0.8:
+            elif k < 0.6:
                 evs.append("recv_%s" % who)
+            elif k < 0.85:
+                cases = [rng.choice(["r", "r", "s%d" % rng.randrange(1, 10), "s%d" % rng.randrange(1, 10), "d"]) for _ in range(rng.randrange(1, 4))]
+                if cases.count("d") > 1:
+                    cases = [c for c in cases if c != "d"] + ["d"]
+                evs.append("sel_%s_%d_%s" % (who, rng.randrange(0, 12), ".".join(cases)))
             else:
                 evs.append("dequeue")
         scripts.append((cap, "|".join(evs)))
@@ -606,7 +608,7 @@ def kind_of(op, ans):
         res = ans.split(":")[0] + ":" + ans.split(":")[1] if ans.startswith("err:") else "ok"
         return "%s:%s:%s" % (k, top, res)
     if k == "guard":
-        return "guard:" + ("cannot-block" if "err:cannot-block" in ans else "no-block-in-callback") + (":typeerror" if "typeerror" in ans else "")
+        return "guard:" + ("cannot-block" if "err:cannot-block" in ans else "no-block-in-callback") + (":select" if "sel_" in op else "") + (":typeerror" if "typeerror" in ans else "")
     return k
 
 
@@ -618,7 +620,7 @@ def run(tier, seed):
                 "structs with exported/unexported fields, pointers, interfaces, *js.Object, funcs), JS values of matching and "
                 "mismatching shape (typed arrays of every class, lone surrogates, digit strings, wrappers); string transcoding: "
                 "all code points at encoding boundaries + a stride over all code points, every invalid lead byte, lone surrogates "
-                "in every context; callback-guard scripts on the real $send/$recv/$block/$schedule. An op is non-trivial when "
+                "in every context; callback-guard scripts (send/recv/select by goroutines and inside callbacks, controlled Math.random) on the real $send/$recv/$select/$block/$schedule. An op is non-trivial when "
                 "distinct (sha1 of the op line). (b,c) compiled programs under GopherJS+Node, expected values from the model.")
     chk.trusted = ["Lean 4.33 kernel", "axioms: propext, Classical.choice, Quot.sound at most (listed per theorem)",
                    "hand-written models GV.Model.JsConv / Utf16 / CbGuard tied to jsmapping.js / goroutines.js by this differential run",
@@ -632,6 +634,12 @@ def run(tier, seed):
         "property order of plain JS objects is modelled as insertion order; maps/objects are compared with keys sorted",
         "cyclic JS objects (the `seen` cache of $internalize) and makeWrapper (MakeFullWrapper) are not modelled",
         "V8 implements charCodeAt/fromCharCode/typed arrays/ToInt32 per ECMAScript",
+        "outside the documented domain, transcribed in the model but not required by any theorem: pointers are not in the js package's table "
+        "(null -> *struct with exported fields is a JavaScript TypeError, nil *struct -> null); a struct whose FIRST field is an interface{} "
+        "holding a *js.Object externalizes to the internal js.Object wrapper struct (the package comment only speaks of structs containing a "
+        "*js.Object field); a missing property internalizes to the string \"undefined\" for string fields, which is exactly the documented "
+        "'converted according to JavaScript type conversions' (String(undefined)); MakeFullWrapper passes its makeWrapper argument in the recv "
+        "slot of $internalize (makeWrapper is not modelled)",
     ]
     chk.proof = C.check_proofs("C11", THEOREMS, tier)
     g = ValGen(chk.rng)
@@ -671,24 +679,7 @@ def run(tier, seed):
         if p[1] == "back" and (spec[i] == "undocumented" or model[i].startswith("op")):
             spec[i] = model[i]
 
-    # what a round trip yields if the ONLY deviation is "nil map comes back as an empty map" (canonical rendering via the driver)
-    rt_ops = [o for (o, meta) in conv if o.split()[1] == "rt" and meta.get("domain")]
-    nilmap_exp = dict(zip(rt_ops, C.run_driver("C11", ["jsconv rtspec %s %s" % (o.split()[2], rt_expected(o.split()[2], o.split()[3])) for o in rt_ops]))) if rt_ops else {}
-
-    def sig_conv(o, a, c):
-        p = o.split()
-        if p[1] != "rt" or a != model_of[o] or o not in nilmap_exp:
-            return None
-        # the model reproduces the answer: which modelled defect explains it?
-        if a == c.replace("nz", "n0"):
-            return SIG_NEGZERO
-        if a == nilmap_exp[o]:
-            return SIG_NILMAP
-        if a == nilmap_exp[o].replace("nz", "n0"):
-            return SIG_NEGZERO
-        return None
-
-    chk.compare("prelude-jsconv", ops, impl, model, spec=spec, signature=sig_conv, kind=kind_of)
+    chk.compare("prelude-jsconv", ops, impl, model, spec=spec, kind=kind_of)
 
     # ---------------- strings ----------------
     sops = gen_str_ops(g, tier)
@@ -706,20 +697,8 @@ def run(tier, seed):
     # ---------------- callback guard on the real prelude ----------------
     gops = gen_guard_ops(g, tier)
     gmodel = C.run_driver("C11", gops)
-    gspec = C.run_driver("C11", [o.replace("jsconv guard", "jsconv guardspec", 1) for o in gops])
-    gmodel_of = dict(zip(gops, gmodel))
-
-    def sig_guard(o, a, c):
-        if a != gmodel_of[o]:
-            return None
-        evs = o.split()[3].split("|")
-        outs = a.split("|")
-        for e, r in zip(evs, outs):
-            if r.startswith("err:cannot-block"):
-                return SIG_GUARD_SEND if e.startswith("send") else SIG_GUARD_RECV
-        return None
-
-    chk.compare("prelude-callback-guard", gops, C.run_node(gops), gmodel, spec=gspec, signature=sig_guard, kind=kind_of)
+    # callback_guard is proved at full strength for the model, so the model is the specification
+    chk.compare("prelude-callback-guard", gops, C.run_node(gops), gmodel, kind=kind_of)
 
     # ---------------- (b), (c) compiled programs ----------------
     program_tie(chk, tier, g)
@@ -1165,15 +1144,20 @@ func main() {
 	println("nil.slice", ev("snil(null)").Bool())
 	println("nil.map", ev("mnil(null)").Bool())
 	println("nil.map.roundtrip", ev("mid(null) === null").Bool())
+	// int / uint parameters are truncated like every other integer kind (and like (*js.Object).Int())
+	js.Global.Set("fi", func(x int) string { return num(float64(x)) })
+	js.Global.Set("fu", func(x uint) string { return num(float64(x)) })
+	println("int.param", ev("fi(4294967301)").String(), ev("fi(undefined)").String(), ev("fi(-1.9)").String())
+	println("uint.param", ev("fu(-1)").String(), ev("fu(4294967296)").String())
+	// a Go array internalized from a plain JavaScript Array is backed by the array class of its element kind
+	js.Global.Set("fa", func(m map[string][2]int8) interface{} { return m["k"] })
+	println("array.native", ev("(function(){var r=fa({k:[1,300]});return r.constructor.name+':'+Array.from(r).join()})()").String())
 	_, _, _, _, _ = zero, nan, pinf, ninf, negz
 }
 """
 FINDING_EXPECT = ["float.accessor nz", "float.interface nz", "float.param nz", "float.slice nz", "float.roundtrip true",
-                  "nil.slice true", "nil.map true", "nil.map.roundtrip true"]
-FINDING_MODEL = ["float.accessor nz", "float.interface n0", "float.param n0", "float.slice n0", "float.roundtrip false",
-                 "nil.slice true", "nil.map false", "nil.map.roundtrip false"]
-FINDING_SIG = {"float.interface": SIG_NEGZERO, "float.param": SIG_NEGZERO, "float.slice": SIG_NEGZERO, "float.roundtrip": SIG_NEGZERO,
-               "nil.map": SIG_NILMAP, "nil.map.roundtrip": SIG_NILMAP}
+                  "nil.slice true", "nil.map true", "nil.map.roundtrip true", "int.param n5 n0 n-1", "uint.param n4294967295 n0",
+                  "array.native Int8Array:1,44"]
 
 GUARD_PROG = """package main
 
@@ -1205,11 +1189,14 @@ func main() {
 }
 """
 GUARD_SEND = ("c <- 7", 'select {\n\t\tcase v := <-c:\n\t\t\tprintln("goroutine: received", v)\n\t\tdefault:\n\t\t\tprintln("goroutine: nothing to receive")\n\t\t}')
+GUARD_SELECT = ("select {\n\t\tcase c <- 7:\n\t\tcase v := <-c:\n\t\t\tprintln(v)\n\t\t}",
+                'select {\n\t\tcase v := <-c:\n\t\t\tprintln("goroutine: received", v)\n\t\tdefault:\n\t\t\tprintln("goroutine: nothing to receive")\n\t\t}')
 GUARD_RECV = ("println(<-c)", 'select {\n\t\tcase c <- 9:\n\t\t\tprintln("goroutine: sent")\n\t\tdefault:\n\t\t\tprintln("goroutine: nobody receiving")\n\t\t}')
 GUARD_MSG = "callback recovered: runtime error: cannot block in JavaScript callback, fix by wrapping code in goroutine"
 GUARD_EXPECT = {
     "send": ([GUARD_MSG, "goroutine: nothing to receive", "main: finished"], "exit0"),
     "recv": ([GUARD_MSG, "goroutine: nobody receiving", "main: finished"], "exit0"),
+    "select": ([GUARD_MSG, "goroutine: nothing to receive", "main: finished"], "exit0"),
 }
 
 
@@ -1245,6 +1232,8 @@ def program_tie(chk, tier, g):
     meta.append(("guard", "send"))
     jobs.append({"id": "guard-recv", "files": {"main.go": GUARD_PROG % GUARD_RECV}, "variants": ["plain"], "native": False, "timeout": 300})
     meta.append(("guard", "recv"))
+    jobs.append({"id": "guard-select", "files": {"main.go": GUARD_PROG % GUARD_SELECT}, "variants": ["plain"], "native": False, "timeout": 300})
+    meta.append(("guard", "select"))
     res = progs.run_jobs(jobs, par=4)
     # a timed-out job is re-run alone before anything is concluded from it (the machine is shared and loaded)
     for i, (j, r) in enumerate(zip(jobs, res)):
@@ -1268,45 +1257,21 @@ def program_tie(chk, tier, g):
                 chk.compare(tie, info, lines, model, kind=lambda o, a, kind=kind: "program:" + kind)
             elif kind in ("accessors", "findings"):
                 exp = ACCESSORS_EXPECT if kind == "accessors" else FINDING_EXPECT
-                modelp = exp if kind == "accessors" else FINDING_MODEL
+                modelp = exp
                 chk.extra[kind + "_lines"] = len(exp)
                 if obs[1] != "exit0" or len(obs[0]) != len(exp):
                     chk.add_mismatch(tie, json.dumps({"id": j["id"]}), impl=json.dumps([obs[0][-4:], obs[1]]), spec="%d lines, exit0" % len(exp))
                     continue
                 ops = ["%s line %d %s" % (kind, i, e.split(" ")[0]) for i, e in enumerate(exp)]
-                chk.compare(tie, ops, obs[0], modelp, spec=exp,
-                            signature=lambda o, a, c, modelp=modelp: FINDING_SIG.get(o.split(" ")[3]) if a == modelp[int(o.split(" ")[2])] else None,
-                            kind=lambda o, a, kind=kind: "program:" + kind)
+                chk.compare(tie, ops, obs[0], modelp, spec=exp, kind=lambda o, a, kind=kind: "program:" + kind)
             else:
                 exp = GUARD_EXPECT[info]
                 chk.add_case(tie, info, kindkey="program:guard")
                 if (obs[0], obs[1]) != exp:
-                    sig = None
-                    raised = len(obs[0]) >= 1 and obs[0][0] == exp[0][0]
-                    if raised and obs[1].startswith("jserror:TypeError") and "is not a function" in obs[1]:
-                        sig = SIG_GUARD_SEND if info == "send" else SIG_GUARD_RECV
                     chk.add_mismatch(tie, json.dumps({"id": j["id"], "source": j["files"]["main.go"]}), impl=json.dumps([obs[0], obs[1]]),
-                                     spec=json.dumps(exp), signature=sig)
+                                     spec=json.dumps(exp))
     chk.extra["programs"] = len(jobs)
 
-
-
-def rt_expected(T, v):
-    """the value a round trip yields when the only deviation is nil map -> empty map (computed on the sexpr with the type)"""
-    def go(t, x):
-        n, a = t
-        if n == "TM":
-            if x[0] == "nil":
-                return ("mp", [])
-            return ("mp", [y if i % 2 == 0 else go(a[0], y) for i, y in enumerate(x[1])])
-        if n == "TS":
-            return x if x[0] == "nil" else ("sl", [go(a[0], y) for y in x[1]])
-        if n == "TA":
-            return ("ar", [go(a[1], y) for y in x[1]])
-        if n == "TT":     # unexported fields do not travel: they keep their (zero) value
-            return ("st", [go(a[2 * i + 1], y) if a[2 * i][0][0] == "x" else y for i, y in enumerate(x[1])])
-        return x
-    return show_sx(go(parse_sx(T), parse_sx(v)))
 
 
 def replay(path):
